@@ -108,6 +108,7 @@ impl<Key, Value> Store<Key, Value>
     pub(crate) fn put(&self, key: Key, value: Value, key_id: KeyId) {
         #[cfg(cached_verif)] crate::cache::verif::lock_touch(&self.store as *const _ as i64, 1);
         self.store.insert(key, StoredValue::never_expiring(value, key_id));
+        #[cfg(cached_verif)] crate::cache::verif::lock_touch(&self.store as *const _ as i64, 1);
         self.stats_counter.add_key();
     }
 
@@ -117,6 +118,7 @@ impl<Key, Value> Store<Key, Value>
 
         #[cfg(cached_verif)] crate::cache::verif::lock_touch(&self.store as *const _ as i64, 1);
         self.store.insert(key, stored_value);
+        #[cfg(cached_verif)] crate::cache::verif::lock_touch(&self.store as *const _ as i64, 1);
         self.stats_counter.add_key();
 
         expire_after.unwrap()
@@ -125,6 +127,7 @@ impl<Key, Value> Store<Key, Value>
     pub(crate) fn delete(&self, key: &Key) -> Option<KeyIdExpiry> {
         #[cfg(cached_verif)] crate::cache::verif::lock_touch(&self.store as *const _ as i64, 1);
         if let Some(pair) = self.store.remove(key) {
+            #[cfg(cached_verif)] crate::cache::verif::lock_touch(&self.store as *const _ as i64, 1);
             self.stats_counter.delete_key();
             #[cfg(cached_verif)] crate::cache::verif::event("store_removed", &[pair.1.key_id() as i64]);
             return Some(KeyIdExpiry(pair.1.key_id(), pair.1.expire_after()));
@@ -135,6 +138,7 @@ impl<Key, Value> Store<Key, Value>
     pub(crate) fn mark_deleted(&self, key: &Key) {
         #[cfg(cached_verif)] crate::cache::verif::lock_touch(&self.store as *const _ as i64, 1);
         if let Some(mut pair) = self.store.get_mut(key) {
+            #[cfg(cached_verif)] crate::cache::verif::lock_touch(&self.store as *const _ as i64, 1);
             let stored_value = pair.value_mut();
             stored_value.is_soft_deleted = true;
         }
@@ -149,6 +153,7 @@ impl<Key, Value> Store<Key, Value>
     pub(crate) fn update(&self, key: &Key, value: Option<Value>, time_to_live: Option<Duration>, remove_time_to_live: bool) -> UpdateResponse<Value> {
         #[cfg(cached_verif)] crate::cache::verif::lock_touch(&self.store as *const _ as i64, 1);
         if let Some(mut existing_value) = self.store.get_mut(key) {
+            #[cfg(cached_verif)] crate::cache::verif::lock_touch(&self.store as *const _ as i64, 1);
             let existing_expiry = existing_value.expire_after();
             let new_expiry = existing_value.update(value, time_to_live, remove_time_to_live, &self.clock);
 
